@@ -43,6 +43,12 @@ def _p_gt(i, c):
     return (f"a{i}>{c:#x}", e)
 
 
+def _p_gt_selfbalance(i):
+    def e(a):
+        a.op("SELFBALANCE"); _arg(a, i); a.op("GT")
+    return (f"a{i}>selfbalance", e)
+
+
 def _p_sum(i, j, c):
     def e(a):
         _arg(a, j); _arg(a, i); a.op("ADD"); a.push(c); a.op("EQ")
@@ -69,6 +75,9 @@ class TreeCase:
         self.nfun = ch.int(1, 2, "t.nfun")
         self.funs = []
         for f in range(self.nfun):
+            if ch.chance(0.1, f"t.{f}.implicit"):
+                self.funs.append((f"check_t{f}(uint256,uint256,uint256)", self._implicit_tree(f"t.{f}.i")))
+                continue
             if ch.chance(0.2, f"t.{f}.recycle"):
                 self.funs.append((f"check_t{f}(uint256,uint256,uint256)", self._recycle_tree(f"t.{f}.r")))
                 continue
@@ -84,6 +93,18 @@ class TreeCase:
     def _pred(self, pr):
         self.pool.append(pr)
         return len(self.pool) - 1
+
+    def _implicit_tree(self, lbl):
+        """an unsatisfiable leaf whose contradiction involves a constraint halmos adds by itself, without a branch (the sender's
+        balance covers a value transfer), next to a satisfiable leaf that shares every branching condition of it"""
+        ch = self.ch
+        i = ch.pick(3, lbl + ".arg")
+        over = self._pred(_p_gt_selfbalance(i))
+        sel = self._pred(_p_and_eq(ch.choose([j for j in range(3) if j != i], lbl + ".sel.arg"), (1 << 256) - 1, ch.int(0, 5, lbl + ".sel.c")))
+        a_side = ("xfer", i, ("leaf", "panic"))
+        c_side = ("leaf", "panic")
+        inner = ("node", sel, a_side, c_side) if ch.chance(0.5, lbl + ".side") else ("node", sel, c_side, a_side)
+        return ("node", over, inner, ("leaf", "success"))
 
     def _recycle_tree(self, lbl):
         """an unsatisfiable leaf whose core contains a constraint that only its own state keeps alive (vm.assume on a taken
@@ -180,6 +201,15 @@ class TreeCase:
             else:
                 a.op("STOP")
             return
+        if node[0] == "xfer":
+            # ok = call{value: a_i}(0x1234); if (!ok) return;   (the transfer constrains the balance without a branch)
+            okl = a.fresh("xok")
+            a.push(0).push(0).push(0).push(0); _arg(a, node[1]); a.push(0x1234).push(0xFFFF).op("CALL")
+            a.jumpi(okl)
+            a.op("STOP")
+            a.label(okl)
+            self.emit(a, node[2])
+            return
         if node[0] == "assume":
             A.emit_vm_call(a, "assume(bool)", [self.pool[node[1]][1]])
             a.op("POP")
@@ -207,6 +237,8 @@ class TreeCase:
         def d(n):
             if n[0] == "chain":
                 return {"chain": list(n[1:])}
+            if n[0] == "xfer":
+                return {f"transfer a{n[1]}": d(n[2])}
             if n[0] == "assume":
                 return {"assume " + self.pool[n[1]][0]: d(n[2])}
             return n[1] if n[0] == "leaf" else {self.pool[n[1]][0]: [d(n[2]), d(n[3])]}
